@@ -155,6 +155,8 @@ type Session struct {
 	userPolicy                atomic.Pointer[serveruser.Policy] // matched immutable policy snapshot
 	pendingServerUserPolicies map[string]serveruser.Policy      // policy of all users; released after user identity is known
 	clientUseLowEntropy       atomic.Bool                       // whether the server received low entropy data from client
+	openDecided               chan struct{}                     // closed when the open session request is accepted or refused
+	openRefused               atomic.Bool                       // whether the open session request is refused
 	uploadBytes               metrics.Metric                    // number of bytes from client to server
 	downloadBytes             metrics.Metric                    // number of bytes from server to client
 }
@@ -201,6 +203,7 @@ func newSessionWithServerUserPolicy(
 		recvBuf:                   newSegmentTree(segmentTreeCapacity),
 		recvQueue:                 newSegmentTree(segmentTreeCapacity),
 		recvChan:                  make(chan *segment, segmentChanCapacity),
+		openDecided:               make(chan struct{}),
 		rttStat:                   rttStat,
 		cubicSendAlgorithm:        congestion.NewCubicSendAlgorithm(minWindowSize, maxWindowSize),
 	}
@@ -1125,6 +1128,8 @@ func (s *Session) inputData(seg *segment) error {
 					s.status = statusQuotaExhausted
 					log.Debugf("Closing %v because user %s used all the quota", s, userName)
 					s.oLock.Unlock()
+					s.openRefused.Store(true)
+					close(s.openDecided)
 					s.Close()
 					return nil
 				}
@@ -1149,6 +1154,7 @@ func (s *Session) inputData(seg *segment) error {
 			} else {
 				s.oLock.Unlock()
 				s.forwardStateTo(sessionEstablished)
+				close(s.openDecided)
 			}
 		}
 	}
